@@ -90,6 +90,63 @@ class Ctx:
         self.adts = {a["path"]: a for a in facts["adts"]}
         self._bodies = {}
         self._cg = None
+        self.wrappers = {}
+        self._alias_thin_wrappers()
+
+    def _alias_thin_wrappers(self):
+        """`fn compile(&self, a, b) { let r = self.compile_inner(a, b); adjust(r) }`: rules are written against the function
+        that does the work.  A thin wrapper W of B (B is named W_<suffix> in the same impl, same parameter types, exactly one
+        call of B with W's own parameters in order, B called from nowhere else) is made transparent: calls of W are analysed as calls of B, and looking W up by
+        name yields B.  The wrapper's own body stays available under its id (self.wrappers[B] = W)."""
+        callers = {}
+        for f in self.facts["fns"]:
+            if "mir" not in f:
+                continue
+            for blk in f["mir"]["blocks"]:
+                t = blk["term"]
+                if t and t["k"] == "call":
+                    c = t["func"].get("resolved") or t["func"].get("declared")
+                    if c in self.fns:
+                        callers.setdefault(c, set()).add(f["id"])
+        for f in self.facts["fns"]:
+            if "mir" not in f or f["kind"] not in ("fn", "assoc_fn") or f.get("from_expansion"):
+                continue
+            m = f["mir"]
+            cands = []
+            for blk in m["blocks"]:
+                t = blk["term"]
+                if blk.get("cleanup") or not t or t["k"] != "call":
+                    continue
+                c = t["func"].get("resolved") or t["func"].get("declared")
+                if c in self.fns and c != f["id"]:
+                    g = self.fns[c]
+                    if g.get("inputs") == f.get("inputs") and g.get("output") == f.get("output") and len(t["args"]) == m["arg_count"]:
+                        cands.append((c, t))
+            if len(cands) != 1:
+                continue
+            c, t = cands[0]
+            if callers.get(c, set()) - {f["id"], c} or not (f.get("inputs") or []):
+                continue
+            # only the `name` / `name_suffix` convention (compile / compile_unadjusted): a function that merely happens to
+            # delegate (check_type -> constrain_type, parse_expr -> parse_short_circuiting_or) keeps its identity
+            if not mir.last_seg(c).startswith(mir.last_seg(f["id"]) + "_") or c.rsplit("::", 1)[0] != f["id"].rsplit("::", 1)[0]:
+                continue
+            b = mir.Body(f)
+            if not all(any(r == ("arg", i + 1) and not p for (r, p) in b.trace_operand(a)) for i, a in enumerate(t["args"])):
+                continue
+            self.wrappers[c] = f["id"]
+        if not self.wrappers:
+            return
+        back = {w: b for b, w in self.wrappers.items()}
+        for f in self.facts["fns"]:
+            if "mir" not in f or f["id"] in back:
+                continue
+            for blk in f["mir"]["blocks"]:
+                t = blk["term"]
+                if t and t["k"] == "call":
+                    for key in ("resolved", "declared"):
+                        if t["func"].get(key) in back:
+                            t["func"][key] = back[t["func"][key]]
 
     @property
     def cg(self):
@@ -120,6 +177,10 @@ class Ctx:
             if kind and f["kind"] != kind:
                 continue
             if name is not None and mir.last_seg(f["id"]) != name:
+                # a thin wrapper answers to the name of the function that does the work
+                if not (f["id"] in self.wrappers and mir.last_seg(self.wrappers[f["id"]]) == name):
+                    continue
+            elif name is not None and f["id"] in self.wrappers.values():
                 continue
             if self_ty is not None:
                 ins = f.get("inputs") or []
